@@ -43,7 +43,10 @@ func (m *PositionMapper) LSPToByte(pos protocol.Position) int {
 		return len(m.content)
 	}
 	byteOffset := m.lineStarts[line]
-	byteOffset += UTF16OffsetToByteOffset(m.lines[line], int(pos.Character))
+	// A character offset past the line end clamps to the end of the line
+	// content, i.e. before the line terminator ("\n" or "\r\n").
+	lineContent := strings.TrimSuffix(m.lines[line], "\r")
+	byteOffset += UTF16OffsetToByteOffset(lineContent, int(pos.Character))
 	return byteOffset
 }
 
